@@ -251,7 +251,8 @@ def judge(case, result):
         stop_seq = result.stop_seq
         if stop_seq is not None:
             later = [r for r in requests_ if r["seq"] > stop_seq]
-            started_after = [e for e in events if e["type"] == "ScenarioStarted" and e["seq"] > stop_seq]
+            # unit phases only: the stateful thread may have queued announcements before the stop that are delivered later
+            started_after = [e for e in events if e["type"] == "ScenarioStarted" and e["seq"] > stop_seq and e["phase"] != "STATEFUL_TESTING"]
             allowed = workers
             if later or started_after or any(e["seq"] > stop_seq for e in events):
                 stats["stops_with_later_events"] = 1
